@@ -94,13 +94,14 @@ def check(ctx):
     ctx.cov["trace_runs"] = len(stats) if stats else 0
     if stats:
         for k in ("deletes", "recreates", "revertsAcrossDelete", "reverts", "zeroWrites", "listWrites", "commits", "encodeStorageWrites",
-                  "logTransferRefundOps", "revertsDroppingLogs", "buildStorageTrie", "siblingCommits", "stateSwitches"):
+                  "logTransferRefundOps", "revertsDroppingLogs", "buildStorageTrie", "siblingCommits", "stateSwitches",
+                  "blindStateObjects", "blindStorageWrites"):
             ctx.cov["trace_" + k] = sum(s[k] for s in stats)
         ctx.cov["trace_max_addresses"] = max(s["addresses"] for s in stats)
         ctx.cov["trace_max_keys_per_address"] = max(s["maxKeysPerAddr"] for s in stats)
     ctx.cov["trie"] = tstats.get("trie", {})
     ctx.cov["independent_encoder"] = tstats.get("states", {})
-    for k in ("build_storage_trie_calls", "committed_leaf_checks", "side_journal_checks"):
+    for k in ("build_storage_trie_calls", "committed_leaf_checks", "side_journal_checks", "blind_steps"):
         ctx.cov["replay_" + k] = rstats.get(k, 0)
     ctx.cov["traces_validated_against_impl"] += accepted + rstats.get("behaviours_replayed", 0)
     tc = tstats.get("trie", {})
@@ -131,6 +132,7 @@ def check(ctx):
         "blake2b/keccak are injective oracles: the root is modelled as the canonical content; the harness checks equal content <=> equal real root over everything it stages",
         "the 60-line reference Merkle-Patricia hasher (RLP, hex-prefix, blake2b-256) in harness/cmd/triecheck is trusted; it agrees with the real trie on the unchanged tree for all enumerated contents",
         "the independent account-leaf encoder (RLP[balance, energy, blockTime, master, codeHash, storageRoot] over blake2b(address) / blake2b(key), explicit empty storage root) in harness/cmd/triecheck/states.go is trusted; it is applied to the small state universes of the replays, the large random histories rely on the content<->root bijection",
+        "blind State objects (every fifth replay chunk, every third re-open of the random runs, one per sibling scenario) call no storage getter before their first Stage, so that Stage opens the base storage tries itself; their bases/parents are committed at conflict number 1, with and without a conflict-0 sibling that wrote the same storage trie",
         "BuildStorageTrie is only specified (and only called) for addresses not deleted in the calling State object; sibling State objects share nothing but the database",
         "integers of the specification are realized as fixed byte strings by the driver (addresses, keys, code blobs, scalar and raw-list storage values); getter results outside that alphabet decode to -1 and can never match",
         "balances in traces are <= 5e8 and times <= 4 so that CalcEnergy's product stays below 2^31 in TLC; energy growth is checked with EnergyGrowthRate = 5e9 (driver refuses to run otherwise)",
